@@ -1,7 +1,8 @@
 (* C12 — second-side lists rank exactly the agents that find them acceptable.
    random.shuffle is a permutation oracle: the correspondence R_invert / R_genfile checks that every written
    second-side list is a permutation of the inversion proved correct here. *)
-From MP Require Import Gen.Quotas Proofs.GenProofs Proofs.SpaSecondSide.
+From MP Require Import Gen.Quotas Gen.Files Spec.SecondSide Proofs.GenProofs Proofs.SpaSecondSide Proofs.PipelineProofs
+                       Proofs.SecondSideFile.
 Local Open Scope list_scope. Open Scope Z_scope.
 
 (* hospital / woman j lists resident / man i exactly once iff i lists j; nobody else appears *)
@@ -34,6 +35,21 @@ Theorem C12_spa_second_side : forall prefs plec n3 sl inv,
     if (1 <=? i) && (i <=? zlen prefs) && existsb (offers plec k) (nth (Z.to_nat (i - 1)) prefs []) then 1 else 0.
 Proof. exact spa_second_side_spec. Qed.
 Print Assumptions C12_spa_second_side.
+
+(* the property on the written file: every two-sided file the generator writes (any accepted arguments, any draws
+   honouring the RNG contract, i.e. any shuffle) is, line by line and up to blanks, the rendering of an abstract file
+   A whose second-side lists contain each first-side agent that finds the owner acceptable exactly once and nobody
+   else (Spec/SecondSide.v second_side_exact: hospitals / women for ha-sm-hr files, lecturers for spa files) *)
+Theorem C12_generated_file : forall a d text,
+  gargs_ok a -> draws_contract a d -> g_twopl a = true -> instance_text a d = Ok text ->
+  exists A h T body rest,
+    wf_ast (na_of a) true A = true /\
+    ast_lines (na_of a) A = h :: T /\
+    text = join " "%string h +++ NLs +++ body +++ rest /\ gen_ok body T /\
+    f_n1 A = g_n1 a /\
+    second_side_exact (na_of a) A (n_second a).
+Proof. exact generated_file_second_side. Qed.
+Print Assumptions C12_generated_file.
 
 Example C12_example :
   invert [[2; 1]; [2]; [3; 1]] 3 = Ok [[1; 3]; [1; 2]; [3]] /\
